@@ -6,7 +6,7 @@ import numpy as np
 from hypothesis import strategies as st
 from hypothesis.stateful import RuleBasedStateMachine, initialize, rule
 
-from ..core import machine_law, given_law, Violation
+from ..core import machine_law, given_law, plain_law, Violation
 from .. import gen
 
 RULE = ("histories over a pool of (kind, parameters, seed) descriptors, kind in {ft, ft_sh, von Karman infinite, Fried "
@@ -368,7 +368,40 @@ def neighbour_body(ctx, case):
             ctx.require(False, "seeded %s screen %s differs from the same screen built alone in a fresh process, from row count %d on; an earlier instance differing only in %s is enough" % (d["kind"], name, first, culprit))
 
 
+def unseeded_cases(tier):
+    n = 1500 if tier == "quick" else 6000
+    return [{"kind": k, "count": n} for k in ("ft", "ft_sh", "vk", "fried")]
+
+
+def unseeded_body(ctx, case):
+    """'Unseeded calls differ from each other': among `count` unseeded screens no two are identical (a hidden seed
+    space of 1e5 values would give >= 1 collision with probability 1 - exp(-count^2 / 2e5) > 0.9999 for 1500)."""
+    import hashlib
+    ps_, ips, _, _ = T()
+    ctx.case(case, nontrivial=True, classes=["kind_" + case["kind"]])
+    seen = {}
+    st0 = np.random.get_state()
+    try:
+        with warnings.catch_warnings():
+            warnings.simplefilter("ignore")
+            for i in range(case["count"]):
+                if case["kind"] == "ft":
+                    a = ps_.ft_phase_screen(0.16, 2, 0.1, 25.0, 0.01)
+                elif case["kind"] == "ft_sh":
+                    a = ps_.ft_sh_phase_screen(0.16, 2, 0.1, 25.0, 0.01)
+                elif case["kind"] == "vk":
+                    a = ips.PhaseScreenVonKarman(2, 0.1, 0.16, 25.0, n_columns=1).scrn
+                else:
+                    a = ips.PhaseScreenKolmogorov(2, 0.1, 0.16, 25.0, stencil_length_factor=1).scrn
+                h = hashlib.blake2b(np.ascontiguousarray(a).tobytes(), digest_size=12).digest()
+                ctx.require(h not in seen, "unseeded %s screens number %d and %d are bit-identical" % (case["kind"], seen.get(h, -1), i))
+                seen[h] = i
+    finally:
+        np.random.set_state(st0)
+
+
 LAWS = [
+    plain_law("unseeded_all_distinct", unseeded_cases, unseeded_body, shards={"quick": 4, "thorough": 4}),
     given_law("order_independence", neighbour_cases(), neighbour_body, {"quick": 3, "thorough": 20}, shards={"quick": 6, "thorough": 16}),
     given_law("distinct_seeds", seedset_cases(), seedset_body, {"quick": 25, "thorough": 100}, shards={"quick": 2, "thorough": 8}),
     machine_law("history", make_machine, replay_history, {"quick": 60, "thorough": 400}, {"quick": 25, "thorough": 40}, shards={"quick": 6, "thorough": 16}),
